@@ -18,16 +18,22 @@
     by the recursion, that sub-problem has the hedge `F = V'`, `F' = V' ∖ X'` (`line5_hedge`), and every line of the
     recursion transports hedges back to its caller with the same vertex sets (`step_hedge`, `reach_hedge`).
 
-  -- OPEN: id_hedge_fail : (∃ F F', G.Hedge X Y F F') → identify topo G X Y = .error .unidentifiable
-  --   (the converse; it follows from `id_sound` and the non-identifiability of hedges — two models agreeing on P(v) and
-  --    differing on P_x(y), Shpitser–Pearl 2006 Thm 4 — literature, not mechanised).  Decided per input by the two
-  --    independent procedures of the harness (brute-force hedge search vs. the verdict).
+  * hedge ⇒ refusal: `id_hedge_fail` — proved on the graph, with no appeal to probability: a hedge survives every line
+    of the recursion (it is a hedge of the sub-problem of lines 2, 3, 7 and of one of the sub-problems of line 4) and
+    excludes lines 1 and 6 (`step_hedge_down`), so ID cannot return an estimand and, being total, refuses.
+  * `id_fail_iff_hedge`: **ID refuses exactly when a hedge exists**; `id_ok_iff_no_hedge`: it returns an estimand exactly
+    when none exists.
+
+  Not mechanised (literature, Shpitser–Pearl 2006 Thm 4): "a hedge exists ⇒ the effect is not identifiable from P(v)"
+  (two models agreeing on P(v) and differing on P_x(y)).  The other half of "refuses exactly when not identifiable" IS a
+  theorem: an estimand is returned only when the effect is identifiable, with that estimand (`id_sound`, C01).
   -- R: "leaves the caller's graph and query objects unchanged" is a Python-runtime clause (the model is pure).
 -/
 import Y0.Lemmas.IdTotal
 import Y0.Lemmas.IdTopoAnc
 import Y0.Lemmas.IdHedge
 import Y0.Lemmas.IdHedgeTransport
+import Y0.Lemmas.IdHedgeDown
 import Y0.Lemmas.IdFuel
 
 namespace Y0
@@ -166,6 +172,51 @@ theorem id_fail_hedge {topo : MG Name → Except Err (List Name)} (ht : TopoGood
     (h : identify topo G X Y = .error .unidentifiable) : ∃ F F', G.Hedge X Y F F' := by
   obtain ⟨est, J, hv, hreach, hh⟩ := id_fail_hedge_sub ht G X Y hq hX h
   exact ⟨_, _, reach_hedge hreach hv hh⟩
+
+/-- **C02, hedge ⇒ refusal.** If the graph contains a hedge for `P_x(y)`, ID refuses the (valid) query. -/
+theorem id_hedge_fail {topo : MG Name → Except Err (List Name)} (ht : TopoGood topo) (G : MG Name)
+    (X Y : List Name) (hq : ValidQuery G X Y) {F F' : Name → Prop} (hh : G.Hedge X Y F F') :
+    identify topo G X Y = .error .unidentifiable := by
+  unfold identify
+  cases hj : pJoint G.nodes with
+  | error e =>
+    exfalso
+    have hne : G.nodes ≠ [] := by
+      obtain ⟨y, hy⟩ := List.exists_mem_of_ne_nil _ hq.yne
+      exact List.ne_nil_of_mem (hq.ysub y hy)
+    unfold pJoint at hj
+    split at hj
+    · rename_i hs; exact sortNames_ne_nil hne hs
+    · cases hj
+  | ok est =>
+    have hplain : EstPlain est := by
+      unfold pJoint at hj
+      split at hj
+      · cases hj
+      · cases hj; trivial
+    simp only [bind, Except.bind]
+    exact idAlg_hedge_refuses ht { G := G, X := X, Y := Y, est := est }
+      ⟨hq.wf, hq.ranked, hq.ysub, hq.yne, hq.disj, hplain⟩ hh
+
+/-- **C02: ID refuses exactly when a hedge exists.** -/
+theorem id_fail_iff_hedge {topo : MG Name → Except Err (List Name)} (ht : TopoGood topo) (G : MG Name)
+    (X Y : List Name) (hq : ValidQuery G X Y) (hX : ∀ x ∈ X, x ∈ G.nodes) :
+    identify topo G X Y = .error .unidentifiable ↔ ∃ F F', G.Hedge X Y F F' :=
+  ⟨id_fail_hedge ht G X Y hq hX, fun ⟨_, _, hh⟩ => id_hedge_fail ht G X Y hq hh⟩
+
+/-- … and returns an estimand exactly when there is none -/
+theorem id_ok_iff_no_hedge {topo : MG Name → Except Err (List Name)} (ht : TopoGood topo) (G : MG Name)
+    (X Y : List Name) (hq : ValidQuery G X Y) (hX : ∀ x ∈ X, x ∈ G.nodes) :
+    (∃ e, identify topo G X Y = .ok e) ↔ ¬ ∃ F F', G.Hedge X Y F F' := by
+  rw [← id_fail_iff_hedge ht G X Y hq hX]
+  constructor
+  · rintro ⟨e, he⟩ h
+    rw [he] at h
+    cases h
+  · intro h
+    rcases id_total ht G X Y hq with he | he
+    · exact he
+    · exact absurd he h
 
 /-- through the public wrapper: `identify_outcomes` returns `None` only when a hedge exists -/
 theorem identifyOutcomes_none_hedge {topo : MG Name → Except Err (List Name)} (ht : TopoGood topo) (G : MG Name)
